@@ -32,7 +32,7 @@ def check(ctx):
     def extra(c):
         return [coord_common.trace_correspondence(c, state.get('cases', []))] + list(state.get('corr3', []))
 
-    return core.standard_check(ctx, ['Consts'], MODS, [], oracle, LEVEL_NOTE, ASSUME, extra_corr_fn=extra)
+    return core.standard_check(ctx, ['Consts', 'Coord'], MODS, [], oracle, LEVEL_NOTE, ASSUME, extra_corr_fn=extra)
 
 
 def replay(ctx, data):
